@@ -3,7 +3,7 @@
 cd /verif
 for p in $(python3 -c "import json;print(' '.join(c['property_id'] for c in json.load(open('MANIFEST.json'))['checks']))"); do
   t0=$(date +%s)
-  out=$(./check $p quick 2>&1); rc=$?
+  out=$(./check $p quick "$@" 2>&1); rc=$?
   t1=$(date +%s)
   echo "$p exit=$rc $((t1-t0))s $(echo "$out" | grep '^TOTAL' | cut -c1-120)"
   if [ $rc -ne 0 ]; then echo "$out" | grep -A3 "FAIL\|VIOLATION\|UNDECIDED" | cut -c1-300 | head -20; fi
